@@ -2,7 +2,7 @@
    Only statements here; proofs live in Proofs/C12_Checker.v; the checker model in Model/C12_Checker.v.
    `true` selects the FIXED register handling of checkMethod (previous returnType / throwType
    restored on exit, fixes/C12-restore-return-context.patch); `false` the code as found. *)
-From Coq Require Import ZArith NArith List Bool.
+From Coq Require Import ZArith NArith List Bool Permutation.
 From Elk Require Import Model.C12_Checker Proofs.C12_Checker.
 Import ListNotations.
 
@@ -71,6 +71,14 @@ Theorem C12_parens : forall fx p, check_prog fx (strip_prog p) = check_prog fx p
 Proof. exact parens_prog. Qed.
 Print Assumptions C12_parens.
 
+(* Permuting the method definitions (distinct names) does not change the number of diagnostics:
+   signatures are looked up by name and every method body is checked in its own isolated context. *)
+Theorem C12_reorder : forall ms ms' mn,
+  Permutation ms ms' -> NoDup (map fst (sigs_of ms)) ->
+  errors true (mkProg ms' mn) = errors true (mkProg ms mn).
+Proof. exact reorder_methods. Qed.
+Print Assumptions C12_reorder.
+
 (* with the fix, checking any expression - closure literals included - leaves the registers alone *)
 Theorem C12_registers_restored : forall sigs e s,
   sregs (fst (check_expr true sigs s e)) = sregs s /\ slocals (fst (check_expr true sigs s e)) = slocals s.
@@ -84,6 +92,16 @@ Example C12_accept_nonvacuous :
   accepts true (mkProg [(0%N, TInt, [SLet 1%N (EClos (ELit TInt)); SReturn (ECall (EVar 1%N))])] []) = true /\
   accepts true (mkProg [(0%N, TInt, [SReturn (EVar 5%N)])] []) = false.
 Proof. vm_compute. auto. Qed.
+
+Example C12_reorder_nonvacuous :
+  let a := (0%N, TInt, [SReturn (EMeth 1%N)]) in
+  let b := (1%N, TInt, [SLet 2%N (EClos (ELit TInt)); SReturn (ECall (EVar 2%N))]) in
+  Permutation [a; b] [b; a] /\ NoDup (map fst (sigs_of [a; b])) /\
+  errors true (mkProg [a; b] [SExpr (EMeth 0%N)]) = 0 /\ errors true (mkProg [b; a] [SExpr (EMeth 0%N)]) = 0.
+Proof.
+  cbn zeta. split; [apply perm_swap|]. split; [|vm_compute; auto].
+  cbn. constructor; [intros [H|[]]; discriminate | constructor; [intros [] | constructor]].
+Qed.
 
 Example C12_rename_nonvacuous :
   ren_body (swap 1%N 7%N) [SLet 1%N (ELit TInt); SReturn (EVar 1%N)] = [SLet 7%N (ELit TInt); SReturn (EVar 7%N)].
